@@ -787,6 +787,13 @@ class VarsManager(object):
                 continue
             if not v:
                 continue
+            # a fixed (or tied) part is a constrained number: only a complex
+            # variable whose two parts are free names may be rewritten
+            if (
+                k + "r" not in self.trainable_vars
+                or k + "i" not in self.trainable_vars
+            ):
+                continue
             has_constrains = False
             for i in self.same_list:
                 if k + "r" in i or k + "i" in i:
